@@ -155,7 +155,10 @@ def case(draw):
         # a pattern that does not occur (an element the structure does not contain): nothing found, the structure is still written
         pels[draw(hperm.integers(0, len(pels) - 1))] = "Xe"
         opts["absent"] = True
-    return {"mode": mode, "infmt": infmt, "outfmt": outfmt, "cell": base["cell"], "spos": base["spos"], "sels": base["sels"],
+    outside = None
+    if mode == "find" and infmt == "lmpdat" and draw(st.booleans()):
+        outside = [[draw(st.sampled_from([0, 0, 0, 1, -1])) for _ in range(3)] if draw(hperm.integers(0, 3)) == 0 else [0, 0, 0] for _ in base["sels"]]
+    return {"mode": mode, "infmt": infmt, "outfmt": outfmt, "cell": base["cell"], "spos": base["spos"], "sels": base["sels"], "outside": outside,
             "groups": groups, "ppos": pat["pos"], "pels": pels, "rpos": rp["pos"], "rels": rp["els"],
             "findfmt": draw(st.sampled_from(["cml", "lmpdat", "cif"])), "replfmt": draw(st.sampled_from(["cml", "lmpdat", "cif"])),
             "opts": opts, "seeds": base["seeds"], "meta": base["meta"], "split_types": draw(st.booleans())}
@@ -252,7 +255,8 @@ def api_pipeline(c, d, outpath):
                 kw["replace_fraction"] = o["p"]
             atoms = replace_pattern_in_structure(atoms, search, rp, **kw)
         else:
-            found = find_pattern_in_structure(atoms, search, **kw)
+            # "writes the structure unmodified": the search runs on a copy, what is saved has not been through it
+            found = find_pattern_in_structure(atoms.copy(), search, **kw)
     if c["outfmt"] in ("lmpdat", "cif"):
         atoms.save(outpath)
     else:
@@ -316,7 +320,12 @@ def oracle(c, stats):
     N = len(c["sels"])
     charges0 = [0.0] * N
     if c["infmt"] == "lmpdat":
-        write_lmpdat(os.path.join(d, "in.lmpdat"), c["cell"], c["spos"], c["sels"], [0.01 * (i % 7) - 0.03 for i in range(N)], c["groups"],
+        spos_in = c["spos"]
+        if c.get("outside"):
+            # the same crystal with a few atoms listed one cell vector outside the box (as after an unwrapped simulation)
+            C_ = np.array(c["cell"], float)
+            spos_in = [list(np.array(p_) + np.array(sh_, float) @ C_) for p_, sh_ in zip(c["spos"], c["outside"])]
+        write_lmpdat(os.path.join(d, "in.lmpdat"), c["cell"], spos_in, c["sels"], [0.01 * (i % 7) - 0.03 for i in range(N)], c["groups"],
                      split=c.get("split_types", False))
     elif c["infmt"] == "cif":
         write_cif(os.path.join(d, "in.cif"), c["cell"], c["spos"], c["sels"])
@@ -385,6 +394,8 @@ def oracle(c, stats):
     stats.count("in:" + c["infmt"])
     stats.count("out:" + c["outfmt"])
     stats.count("n-options:%d" % len(o))
+    if c.get("outside") and any(any(x) for x in c["outside"]):
+        stats.count("input:atoms-listed-outside-the-box")
     if c.get("split_types") and c["infmt"] == "lmpdat":
         stats.count("input:two-types-per-element")
     if "tiny" in c.get("meta", {}):
